@@ -74,6 +74,8 @@ def main(prop, case_source, deciding_counters, level="exploration", nontrivial=N
         verdict.count("events_recorded", stats["events"])
         if stats.get("interrupted_first_run"):
             verdict.count("cases_starting_from_residue_of_interrupted_run")
+        if stats.get("replayed_first_run"):
+            verdict.count("cases_replaying_a_first_run")
         if stats["outcome_exception"] == "IterationBudget":
             verdict.inconclusive_case("iteration budget exceeded (workload too large)")
         signature = stable_hash(result["signature"])
